@@ -160,9 +160,9 @@ class DiagonalNormal(Distribution):
                 )
             )
 
-        # Compute parameters.
-        means = self.mean_
-        log_stds = self.log_std_
+        # Compute parameters (stored flat, as [1, prod(shape)]).
+        means = self.mean_.reshape(1, *self._shape)
+        log_stds = self.log_std_.reshape(1, *self._shape)
 
         # Compute log prob.
         norm_inputs = (inputs - means) * torch.exp(-log_stds)
